@@ -175,6 +175,12 @@ def tiny_configs():
             for er in (False, True):
                 out.append(dict(n_features=3, n_samples=ns, cardinality=2, ensure_rep=er, structure=s))
     # non-default bounds together with a structure that leaves columns before, between and after its entries to the default generator
+    for s in ([[1, [1999, -1]]], [[0, [[70000, -5, 1001], [0.3, 0.3, 0.4]]]]):
+        for er in (False, True):
+            out.append(dict(n_features=2, n_samples=3, cardinality=2, ensure_rep=er, structure=s))
+    for er in (False, True):
+        # the default domain is [low, low+cardinality) even when that exceeds `high` (which only bounds random_values)
+        out.append(dict(n_features=1, n_samples=4, cardinality=4, ensure_rep=er, low=7, high=9))
     for s in ([[1, [100, 101]]], [[0, [100]]], [[2, [100, 101]]], [[[0, 1], [100]]]):
         for er in (False, True):
             out.append(dict(n_features=4, n_samples=2, cardinality=2, ensure_rep=er, structure=s, low=7, high=9))
@@ -227,6 +233,9 @@ def grid_configs():
                             yield dict(n_features=nf, n_samples=ns, cardinality=card, k=k, ensure_rep=er, structure=s)
                             if si in (0, 5) and k == 10:
                                 yield dict(n_features=nf, n_samples=ns, cardinality=card, k=k, ensure_rep=er, structure=s, low=20, high=40)
+    for er in (False, True):
+        yield dict(n_features=2, n_samples=1200, cardinality=1003, ensure_rep=er)
+        yield dict(n_features=3, n_samples=6, cardinality=2, ensure_rep=er, structure=[[1, [2500, -3, 1000]]])
     for card in (1, 3, 6):
         for ns in (2, 6, 50):
             for er in (False, True):
